@@ -179,6 +179,60 @@ def unit_sphere_capsule(tier):
     return ck
 
 
+def unit_capsule_capsule(tier, part=0, nparts=1):
+    """capsule-capsule, non-parallel axes: the two points handed to the sphere-sphere test lie on the two segments and no other pair of segment points is closer"""
+    ck = Checker('capsule_capsule_p%d' % part, tier, timeout_s=200, semantics='real')
+    P = Pair(); r1 = P.s1[0]; r2 = P.s2[0]; h1 = P.s1[1]; h2 = P.s2[1]; a1 = P.z1; a2 = P.z2
+    A1 = [a1[i] * h1 for i in range(3)]; A2 = [a2[i] * h2 for i in range(3)]
+    ma = dot(A1, A1); mb = -dot(A1, A2); mc = dot(A2, A2); det = ma * mc - mb * mb
+    pre = [r1 > 0, r2 > 0, h1 > 0, h2 > 0, P.margin >= 0, dot(a1, a1) == 1, dot(a2, a2) == 1, z3.Or(det >= MINV, det <= -MINV)]
+    got = []
+    def ss_stub(ex, st, args, ins):
+        got.append(args); st.aux['ss_args'] = args; return z3.BitVec('ss_ret', 32)
+    ex = llsym.Exec(mod(), fpmode='real', loop_bound=8, stubs={'mjraw_SphereSphere': ss_stub}); ex.unknown_is_feasible = True; ex.feasibility_timeout_s = 8
+    st = P.w.to_state(ex); st.pc += pre
+    res = ex.run('@mjraw_CapsuleCapsule', P.args(), st); ck.note_results(ex, res)
+    sv = z3.Real('s'); tv = z3.Real('t'); box = [sv >= -1, sv <= 1, tv >= -1, tv <= 1]
+    gen = sub([P.p1[i] + sv * A1[i] for i in range(3)], [P.p2[i] + tv * A2[i] for i in range(3)]); gen2 = dot(gen, gen)
+    def rp(model, witness):
+        import math
+        vals = P.w.concretise(model)
+        status = W.native_call(so(), 'mjraw_CapsuleCapsule', P.w, vals, P.nargs(), restype='i32', outputs=[('dist', P.co, P.off['dist'], 'f64')])
+        if status[0] != 'ok': return False, {'native': str(status)[:200]}
+        g = lambda xs: [float(W.evalnum(model, x)) for x in xs]
+        c1, c2, u1, u2 = g(P.p1), g(P.p2), g(A1), g(A2); R1, R2, MG = [float(W.evalnum(model, x)) for x in (r1, r2, P.margin)]
+        best = 1e300; N = 400
+        for i in range(N + 1):
+            s_ = -1 + 2 * i / N
+            w0 = [c1[k] + s_ * u1[k] - c2[k] for k in range(3)]; den = sum(x * x for x in u2)
+            t_ = max(-1.0, min(1.0, sum(w0[k] * u2[k] for k in range(3)) / den)) if den > 0 else 0.0
+            best = min(best, math.sqrt(sum((w0[k] - t_ * u2[k]) ** 2 for k in range(3))))
+        true = best - R1 - R2; ret = status[1]['ret']; dist = status[1]['out']['dist']
+        bad = ret == 1 and dist - true > 1e-4 * max(1.0, abs(true))          # the reported distance exceeds the distance of a closer pair found by dense search
+        if ret == 0 and true < MG - 1e-4: bad = True
+        return bad, {'native_ret': ret, 'native_dist': dist, 'dense_search_distance': true, 'margin': MG}
+    k_ = -1
+    for rr in res:
+        if rr.kind != 'return': continue
+        k_ += 1
+        if k_ % nparts != part: continue
+        pc = rr.state.pc
+        args = rr.state.aux.get('ss_args')
+        ck.prove('capsule-capsule: the non-parallel branch hands exactly one point pair to the sphere-sphere test', pc, z3.BoolVal(args is not None), site='mjraw_CapsuleCapsule:delegates')
+        if args is None: continue
+        con_p, mg, v1p, m1p, s1p, v2p, m2p, s2p = args
+        v1 = [ex.load(rr.state, llsym.Ptr(v1p.obj, v1p.off + 8 * i), FpT('double')) for i in range(3)]; v2 = [ex.load(rr.state, llsym.Ptr(v2p.obj, v2p.off + 8 * i), FpT('double')) for i in range(3)]
+        x1 = z3.Real('x1w'); x2 = z3.Real('x2w')
+        ck.prove('capsule-capsule: both points lie on their capsule segments', pc, z3.Exists([x1, x2], z3.And(x1 >= -1, x1 <= 1, x2 >= -1, x2 <= 1, *([v1[i] == P.p1[i] + x1 * A1[i] for i in range(3)] + [v2[i] == P.p2[i] + x2 * A2[i] for i in range(3)]))),
+                 site='mjraw_CapsuleCapsule:on-segments', decode=P.dec(), replay=rp)
+        dv = sub(v1, v2)
+        ck.prove('capsule-capsule: no pair of points of the two segments is closer (so dist is the true capsule-capsule distance)', pc + box, dot(dv, dv) <= gen2, site='mjraw_CapsuleCapsule:nearest', decode=P.dec(), replay=rp)
+        ck.prove('capsule-capsule: the sphere-sphere test gets the contact buffer, margin and both radii unchanged', pc, z3.And(mg == P.margin, rr.value == z3.BitVec('ss_ret', 32)), site='mjraw_CapsuleCapsule:arguments', decode=P.dec(), replay=rp)
+    ck.notes.append('returning paths: %d; undecided branches explored as feasible: %d' % (k_ + 1, getattr(ex, 'nunknown', 0)))
+    ck.reach('non-parallel axes', pre)
+    return ck
+
+
 def unit_plane_capsule(tier):
     ck = Checker('plane_capsule', tier, timeout_s=240, semantics='real')
     L = lay(); KG = build.enum_values('mjGEOM_')
